@@ -1,5 +1,6 @@
 import SJ.Proofs.Pointer
 import SJ.Proofs.ValueIndex
+import SJ.Proofs.PartialEq
 /-!
 # C18 — Value lookups follow RFC 6901 and agree with each other
 
@@ -245,5 +246,64 @@ example : takeAt doc [0x2f, 0x6d, 0x7e, 0x30, 0x6e]
     = some (.num (.pos 8), .obj [([0x61, 0x2f, 0x62], .arr [.null, .bool true]), ([0x6d, 0x7e, 0x6e], .null)]) := rfl
 
 end index
+
+/-! ## `Value == primitive` -/
+
+section partialEq
+open SJ.Model.PartialEq SJ.Spec.PrimEq SJ.Proofs.PartialEq
+
+/-- **C18 (PartialEq with integers, bool, strings).** For every integer type of the *extracted*
+    `partialeq_numeric!` table, every comparand in that type's range and every (well-formed) value:
+    `value == comparand` — i.e. the row's function applied to `comparand as _` — is true exactly when
+    the value is an integer `Number` holding that very integer. (Moving a type to a row whose `as`
+    cast does not preserve its values, e.g. `usize` through `i64`, breaks this proof.)
+    Likewise `bool` and `str`/`String` comparands: same constructor, same content. -/
+theorem c18_partial_eq (v : JV) (hv : wfValue v = true) :
+    (∀ ty lo hi, intRange ty = some (lo, hi) → ∀ x : Int, lo ≤ x → x ≤ hi →
+      eqPrim ty (.int x) v = holdsInt x v) ∧
+    (∀ b, eqPrim .bool (.bool b) v = holdsBool b v) ∧
+    (∀ s, eqStr s v = holdsStr s v) := by
+  refine ⟨fun ty lo hi hr x hlo hhi => ?_, fun b => ?_, fun s => ?_⟩
+  · cases ty <;> simp only [intRange, Option.some.injEq, Prod.mk.injEq, reduceCtorEq] at hr <;>
+      obtain ⟨rfl, rfl⟩ := hr <;> simp only [eqPrim, Gen.eqFnOf]
+    all_goals first
+      | exact eqFn_i64 x (by omega) (by omega) v
+      | exact eqFn_u64 x (by omega) (by omega) v hv
+  · cases v <;> simp [eqPrim, Gen.eqFnOf, eqFn, Gen.eqFnParam, Gen.eqFnAccessor, castTo, accessor, castedEq, holdsBool]
+  · cases v <;> rfl
+
+/-- **C18 (PartialEq with floats).** `value == x` for `x : f64` (`f32`) is the IEEE-754 equality of `x`
+    with the value's number converted to binary64 (binary32) by one correctly rounded conversion; a
+    non-number never equals a float. -/
+theorem c18_partial_eq_float (v : JV) :
+    (∀ b, eqPrim .f64 (.f64 b) v = holdsF64 b v) ∧ (∀ b, eqPrim .f32 (.f32 b) v = holdsF32 b v) := by
+  constructor <;> intro b <;> cases v <;>
+    simp only [eqPrim, Gen.eqFnOf, eqFn, Gen.eqFnParam, Gen.eqFnAccessor, castTo, accessor, holdsF64, holdsF32,
+      asF64, asF32] <;>
+    rename_i n <;> first
+      | (cases numAsF64 n <;> rfl)
+      | (cases numAsF32 n <;> rfl)
+
+/-- a NaN comparand equals no value; the two zeros are equal -/
+theorem c18_partial_eq_nan (b : UInt64) (hb : Spec.Ieee.F64.isNaN b = true) (v : JV) : eqPrim .f64 (.f64 b) v = false := by
+  rw [(c18_partial_eq_float v).1]
+  cases v <;> simp only [holdsF64]
+  rename_i n
+  cases numAsF64 n <;> simp [ieeeEq64, hb]
+
+/-- the cast matters: through `i64`, `usize::MAX` would equal `-1` -/
+example : wrapI64 18446744073709551615 = -1 := by decide +kernel
+example : eqPrim .usize (.int 18446744073709551615) (.num (.pos 18446744073709551615)) = true := by decide +kernel
+example : eqPrim .usize (.int 18446744073709551615) (.num (.neg (-1))) = false := by decide +kernel
+example : eqPrim .i8 (.int (-128)) (.num (.neg (-128))) = true := by decide +kernel
+example : eqPrim .u8 (.int 1) (.num (.float 0x3ff0000000000000)) = false := by decide +kernel   -- 1u8 ≠ 1.0
+example : eqPrim .f64 (.f64 0x8000000000000000) (.num (.float 0)) = true := by decide +kernel   -- -0.0 == 0.0
+example : eqPrim .f64 (.f64 0x3ff0000000000000) (.num (.pos 1)) = true := by decide +kernel     -- 1.0 == 1
+example : eqPrim .f64 (.f64 0x7ff8000000000000) (.num (.float 0x7ff8000000000000)) = false := by decide +kernel
+example : eqPrim .f64 (.f64 0x4340000000000000) (.num (.pos 9007199254740993)) = true := by decide +kernel  -- 2^53 == 2^53+1 (as f64)
+example : eqPrim .f32 (.f32 0x3fc00000) (.num (.float 0x3ff8000000000000)) = true := by decide +kernel      -- 1.5f32 == 1.5
+example : eqStr [0x61] (.str [0x61]) = true := rfl
+
+end partialEq
 
 end SJ.Props.C18
